@@ -62,6 +62,7 @@ struct lelem {
     struct cstl_dlist_node dn2;
     uint64_t pad2;
     struct cstl_slist_node sn2;
+    int mark2;
 };
 #define MAGIC 0x11e1e111e1e111e1ull
 
@@ -300,6 +301,23 @@ static int s_foreach_plain(struct cstl_slist *S) { pl_calls = 0; g_inlib = 1; (v
 static int d_sort_plain(struct cstl_dlist *D, void *priv) { pl_calls = 0; g_inlib = 1; cstl_dlist_sort(D, pl_cmp, priv); g_inlib = 0; return pl_calls; }
 static int s_sort_plain(struct cstl_slist *S, void *priv) { pl_calls = 0; g_inlib = 1; cstl_slist_sort(S, pl_cmp, priv); g_inlib = 0; return pl_calls; }
 static int d_find_plain(struct cstl_dlist *D, const void *probe, void **ret) { pl_calls = 0; g_inlib = 1; *ret = cstl_dlist_find(D, probe, pl_cmp, NULL, CSTL_DLIST_FOREACH_DIR_FWD); g_inlib = 0; return pl_calls; }
+/* ... and about what a function returns: the pointer IS the caller's element (see the heap world) */
+static struct lelem pl_el;
+/* (one function per library call: a returned pointer that may come from either of two calls hides what is claimed about one) */
+#define ALIAS_BODY(PUSH, GET, UNDO) \
+    { struct lelem *got; void *r; int before, after; \
+      pl_el.mark2 = 1; g_inlib = 1; PUSH; r = GET; \
+      if (r == NULL) { g_inlib = 0; return -1; } \
+      got = (struct lelem *)((char *)r - hnd); before = pl_el.mark2; got->mark2 = before + 1; after = pl_el.mark2; \
+      UNDO; g_inlib = 0; return after; }
+static __attribute__((noinline)) int d_alias_pop_front(struct cstl_dlist *D, size_t hnd) ALIAS_BODY(cstl_dlist_push_front(D, (char *)&pl_el + hnd), cstl_dlist_pop_front(D), (void)0)
+static __attribute__((noinline)) int d_alias_pop_back(struct cstl_dlist *D, size_t hnd) ALIAS_BODY(cstl_dlist_push_back(D, (char *)&pl_el + hnd), cstl_dlist_pop_back(D), (void)0)
+static __attribute__((noinline)) int d_alias_front(struct cstl_dlist *D, size_t hnd) ALIAS_BODY(cstl_dlist_push_front(D, (char *)&pl_el + hnd), cstl_dlist_front(D), (void)cstl_dlist_pop_front(D))
+static __attribute__((noinline)) int d_alias_back(struct cstl_dlist *D, size_t hnd) ALIAS_BODY(cstl_dlist_push_back(D, (char *)&pl_el + hnd), cstl_dlist_back(D), (void)cstl_dlist_pop_back(D))
+static __attribute__((noinline)) int s_alias_pop_front(struct cstl_slist *S, size_t hnd) ALIAS_BODY(cstl_slist_push_front(S, (char *)&pl_el + hnd), cstl_slist_pop_front(S), (void)0)
+static __attribute__((noinline)) int s_alias_front(struct cstl_slist *S, size_t hnd) ALIAS_BODY(cstl_slist_push_front(S, (char *)&pl_el + hnd), cstl_slist_front(S), (void)cstl_slist_pop_front(S))
+static int d_alias_plain(struct cstl_dlist *D, size_t hnd, int which) { return which == 0 ? d_alias_pop_front(D, hnd) : which == 1 ? d_alias_pop_back(D, hnd) : which == 2 ? d_alias_front(D, hnd) : d_alias_back(D, hnd); }
+static int s_alias_plain(struct cstl_slist *S, size_t hnd, int which) { return which ? s_alias_front(S, hnd) : s_alias_pop_front(S, hnd); }
 #define PLAIN_STEP(k) ((k) % 4 == 1)
 #define INVISIBLE(m, is_d, what, n, seen) VIOL(m, is_d, "callback_effects_invisible", "%s over %d elements: the caller's own counter, written by the callback and read right after the call in an optimised function, says %d", what, n, seen)
 
@@ -770,6 +788,11 @@ static void l_exec(const plan_t *p)
             m_insert(m, m->n, e); EVT("d_push_back", li, e->id, key);
             break;
         case D_POP_FRONT: d_pop_front:
+            if (k % 4 == 3 && m->kind == 0) {
+                int which = (int)(k / 4 % 4), seen = d_alias_plain(D, g_hnd, which);
+                if (seen != 2) VIOL(m, 1, "returned_pointer_is_not_the_element", "a value written through the pointer that pop_front / pop_back / front / back (%d) returned is not seen through the element's own name in an optimised caller (%d)", which, seen);
+                PROBE("returned_pointer_written_through");
+            }
             TRY(ret = cstl_dlist_pop_front(D)); ret = ELMN(ret); check_noabort(m, 1);
             if (m->n == 0) {
                 PROBE("d_pop_empty");
@@ -826,6 +849,16 @@ static void l_exec(const plan_t *p)
             cstl_compare_func_t *cmp = mod ? cmp_key_mod : cmp_key;
             void *priv = mod ? (void *)(intptr_t)(mod + 1) : NULL;
             int n;
+            if ((o->a[2] >> 10) % 4 == 1 && m->n >= 2) {
+                /* a list does not care about its elements' keys: the caller sorts, changes the key of a linked element by plain
+                 * assignment, and sorts again with the same function - the second sort has work to do */
+                TRY(cstl_dlist_sort(D, cmp, priv)); check_noabort(m, 1);
+                n = walk_d(D, tmp, m->n + 4, m->kind);
+                if (n < 0) VIOL(m, 1, "sort_perm", "list does not terminate after sort");
+                check_sorted_perm(m, 1, tmp, n, cmp, priv);
+                m->e[(o->a[2] >> 16) % (uint64_t)m->n]->key = (int)((o->a[2] >> 24) % (uint64_t)keys);
+                PROBE("key_changed_between_two_sorts");
+            }
             if (PLAIN_STEP(k)) { int seen; pl_inner = cmp; seen = d_sort_plain(D, priv); if (m->n >= 2 && seen < m->n - 1) INVISIBLE(m, 1, "sort", m->n, seen); PROBE("callback_counted_in_plain_function"); } else
             TRY(cstl_dlist_sort(D, cmp, priv)); check_noabort(m, 1);
             n = walk_d(D, tmp, m->n + 4, m->kind);
@@ -993,6 +1026,11 @@ static void l_exec(const plan_t *p)
             m_insert(m, m->n, e); EVT("s_push_back", li, e->id, key);
             break;
         case S_POP_FRONT: s_pop_front:
+            if (k % 4 == 3 && m->kind == 0) {
+                int which = (int)(k / 4 % 2), seen = s_alias_plain(S, g_hnd, which);
+                if (seen != 2) VIOL(m, 0, "returned_pointer_is_not_the_element", "a value written through the pointer that %s returned is not seen through the element's own name in an optimised caller (%d)", which ? "front" : "pop_front", seen);
+                PROBE("returned_pointer_written_through");
+            }
             if (m->n == 0) { PROBE("s_pop_empty"); if (!(m->since_clear >= 0 && m->since_clear <= 3)) g_cur_ctx = "empty-list"; }
             TRY(ret = cstl_slist_pop_front(S)); ret = ELMN(ret); check_noabort(m, 0);
             if (m->n == 0) {
@@ -1040,6 +1078,14 @@ static void l_exec(const plan_t *p)
             cstl_compare_func_t *cmp = mod ? cmp_key_mod : cmp_key;
             void *priv = mod ? (void *)(intptr_t)(mod + 1) : NULL;
             int n;
+            if ((o->a[2] >> 10) % 4 == 1 && m->n >= 2) {
+                TRY(cstl_slist_sort(S, cmp, priv)); check_noabort(m, 0);
+                n = walk_s(S, tmp, m->n + 4, m->kind);
+                if (n < 0) VIOL(m, 0, "sort_perm", "list does not terminate after sort");
+                check_sorted_perm(m, 0, tmp, n, cmp, priv);
+                m->e[(o->a[2] >> 16) % (uint64_t)m->n]->key = (int)((o->a[2] >> 24) % (uint64_t)keys);
+                PROBE("key_changed_between_two_sorts");
+            }
             if (PLAIN_STEP(k)) { int seen; pl_inner = cmp; seen = s_sort_plain(S, priv); if (m->n >= 2 && seen < m->n - 1) INVISIBLE(m, 0, "sort", m->n, seen); PROBE("callback_counted_in_plain_function"); } else
             TRY(cstl_slist_sort(S, cmp, priv)); check_noabort(m, 0);
             n = walk_s(S, tmp, m->n + 4, m->kind);
